@@ -19,6 +19,8 @@ static std::map<int, World *> g_wcache;
 static World &world(size_t wi) { World *&W = g_wcache[(int)wi]; if (!W) W = new World(*g_worlds[wi].ps, g_worlds[wi].vkind, ctx.seed); return *W; }
 static bool quick;
 static long g_case = 0;
+// development aid: --opt match=<substring> runs only the cases whose description contains it (numbering unchanged)
+static bool skip_by_match(const std::string &desc) { static std::string m = ctx.option("match"); return !m.empty() && desc.find(m) == std::string::npos; }
 
 static std::vector<size_t> positions(size_t n, Rng &rg, size_t maxall) { std::vector<size_t> p; if (n <= maxall) { for (size_t i = 0; i < n; i++) p.push_back(i); } else { p.push_back(rg.below(n)); size_t b; do b = rg.below(n); while (b == p[0]); p.push_back(b); } return p; }
 static std::vector<int> rand_bits(Rng &rg, size_t n) { std::vector<int> b(n); for (auto &x : b) x = rg.coin(); return b; }
@@ -36,7 +38,7 @@ static void control_failed(const std::string &proto, const RunResult &R, const s
 // ============================================================ (a) dlog stack family
 static void fs_dstack(size_t wi, const std::string &proto, const std::string &kind) {
 	std::string desc = std::string(g_worlds[wi].tag) + " fs " + proto + " " + kind;
-	long k = g_case++; if (!case_begin(k, desc)) return;
+	long k = g_case++; if (skip_by_match(desc) || !case_begin(k, desc)) return;
 	World &W = world(wi); Rng rg = case_rng(k, 4); tl_rng = &rg; Dec dec(W); Acc acc;
 	bool cc = is_cc(proto), rot = is_rotation_proto(proto), direct_vrhe = proto.find("hoogh/vrhe-") == 0;
 	SchindelhauerTMCG tm(8, 2, 6);
@@ -50,7 +52,12 @@ static void fs_dstack(size_t wi, const std::string &proto, const std::string &ki
 			std::vector<int> coins = fs_coins(rg, kappa, P, want_prepared); RunOpt o; o.cfgV = script_coins(coins);
 			RunResult R = run(*I, c.sa, c.sb, o); auto vl = written(R, 1);
 			judge_fs_cc(acc, c, R, P, observed_bits(vl, 1, kappa), kappa, coins, stmt_json(*st));
-		} else { RunResult R = run(*I, c.sa, c.sb); judge_fs(acc, c, R, stmt_json(*st)); }
+		} else {
+			RunResult R = run(*I, c.sa, c.sb);
+			if (c.kind == "nonmember" && !is_tmcg_level(proto)) {   // recorded, not judged: the argument classes called directly leave the membership of e, E to the caller
+				count("obs/nonmember-direct/" + proto + "/" + c.strategy + (R.ok ? "/accepted" : "/refused")); acc.note(c.tuple(), c.json().kv("verifier_verdict", R.ok).kv("judged", false).str()); acc.judged++;
+			} else judge_fs(acc, c, R, stmt_json(*st));
+		}
 	};
 	if (kind == "noncyclic") {
 		std::vector<size_t> ns = quick ? std::vector<size_t>{3, 4} : std::vector<size_t>{3, 4, 5, 6};
@@ -110,7 +117,7 @@ static std::string qstmt_json(World &W, SchindelhauerTMCG &tm, const QStmt &st) 
 static void fs_qstack(bool cyclic, const std::string &kind) {
 	std::string proto = cyclic ? "tmcg/stackeq-qr-cyclic" : "tmcg/stackeq-qr";
 	std::string desc = std::string(g_worlds[0].tag) + " fs " + proto + " " + kind;
-	long k = g_case++; if (!case_begin(k, desc)) return;
+	long k = g_case++; if (skip_by_match(desc) || !case_begin(k, desc)) return;
 	World &W = world(0); W.need_rabin(); Rng rg = case_rng(k, 4); tl_rng = &rg; QRO qro(W); Acc acc;
 	SchindelhauerTMCG tm(8, 2, W.qr_w);
 	uint64_t runidx = 0; auto nextsb = [&]() { return (uint64_t)k * 100003 + (++runidx); };
@@ -173,7 +180,7 @@ static void fs_qstack(bool cyclic, const std::string &kind) {
 static void fs_pubrot(size_t wi, int var, const std::string &kind) {
 	std::string proto = std::string("hoogh/pubrotzk-") + (var == 0 ? "interactive" : var == 1 ? "publiccoin" : "noninteractive");
 	std::string desc = std::string(g_worlds[wi].tag) + " fs " + proto + " " + kind;
-	long k = g_case++; if (!case_begin(k, desc)) return;
+	long k = g_case++; if (skip_by_match(desc) || !case_begin(k, desc)) return;
 	World &W = world(wi); Rng rg = case_rng(k, 4); tl_rng = &rg; Acc acc;
 	uint64_t runidx = 0; auto nextsb = [&]() { return (uint64_t)k * 100003 + (++runidx); };
 	auto rstmt_json = [](const RStmt &st) { std::vector<std::string> a, c; for (size_t i = 0; i < st.n; i++) { a.push_back(mpz_dec(st.alpha->v[i])); c.push_back(mpz_dec(st.cV->v[i])); } return J().arr("alpha", a).arr("c_verifier_view", c).kv("committed_index_per_position", perm_str(st.pi)).str(); };
@@ -224,7 +231,7 @@ static std::string pubs_json(Instance &I) { J j; for (auto &p : I.pub) j.kz(p.na
 
 static void fs_scalar(size_t wi, const std::string &proto, const std::string &kind, const std::vector<Alter> &alts, bool with_both, bool with_replay) {
 	std::string desc = std::string(g_worlds[wi].tag) + " fs " + proto + " " + kind;
-	long k = g_case++; if (!case_begin(k, desc)) return;
+	long k = g_case++; if (skip_by_match(desc) || !case_begin(k, desc)) return;
 	World &W = world(wi); Rng rg = case_rng(k, 4); tl_rng = &rg; Acc acc; Dec dec(W);
 	Factory *f = find_factory(proto); if (!f) throw std::logic_error("C04 harness: no factory " + proto);
 	uint64_t runidx = 0; auto nextsb = [&]() { return (uint64_t)k * 100003 + (++runidx); };
@@ -263,7 +270,7 @@ static void fs_scalar(size_t wi, const std::string &proto, const std::string &ki
 // key share h' = g^x * g^d with the proof for g^x (non-interactive variant: own prover object)
 static void fs_key_nizk(size_t wi) {
 	std::string proto = "vtmf/key-nizk", kind = "keyshift", desc = std::string(g_worlds[wi].tag) + " fs " + proto + " " + kind;
-	long k = g_case++; if (!case_begin(k, desc)) return;
+	long k = g_case++; if (skip_by_match(desc) || !case_begin(k, desc)) return;
 	World &W = world(wi); Rng rg = case_rng(k, 4); tl_rng = &rg; Acc acc;
 	uint64_t runidx = 0; auto nextsb = [&]() { return (uint64_t)k * 100003 + (++runidx); };
 	std::unique_ptr<Instance> I(find_factory(proto)->make(W, rg, 0));
@@ -288,7 +295,7 @@ static void fs_key_nizk(size_t wi) {
 // decryption share computed with another key x' != x_j
 static void fs_otherkey(size_t wi, const std::string &proto) {
 	std::string kind = "otherkey", desc = std::string(g_worlds[wi].tag) + " fs " + proto + " " + kind;
-	long k = g_case++; if (!case_begin(k, desc)) return;
+	long k = g_case++; if (skip_by_match(desc) || !case_begin(k, desc)) return;
 	World &W = world(wi); Rng rg = case_rng(k, 4); tl_rng = &rg; Acc acc;
 	uint64_t runidx = 0; auto nextsb = [&]() { return (uint64_t)k * 100003 + (++runidx); };
 	bool tmcg = proto.find("tmcg/") == 0; std::string h1 = tmcg ? "c.c_1" : "c_1";
@@ -337,7 +344,7 @@ static Instance *qmask_instance(World &W, std::shared_ptr<QMask> st, unsigned lo
 static std::string card_text(const TMCG_Card &c) { std::ostringstream o; o << c; return o.str(); }
 static void fs_qmask(const std::string &kind) {
 	std::string proto = "tmcg/maskcard-qr", desc = std::string(g_worlds[0].tag) + " fs " + proto + " " + kind;
-	long k = g_case++; if (!case_begin(k, desc)) return;
+	long k = g_case++; if (skip_by_match(desc) || !case_begin(k, desc)) return;
 	World &W = world(0); W.need_rabin(); Rng rg = case_rng(k, 4); tl_rng = &rg; QRO qro(W); Acc acc; size_t w_ = W.qr_w;
 	SchindelhauerTMCG tm(8, 2, w_);
 	uint64_t runidx = 0; auto nextsb = [&]() { return (uint64_t)k * 100003 + (++runidx); };
@@ -379,7 +386,7 @@ static Instance *qcs_instance(World &W, std::shared_ptr<QCS> st, unsigned long k
 }
 static void fs_qcardsecret(const std::string &kind) {
 	std::string proto = "tmcg/cardsecret-qr", desc = std::string(g_worlds[0].tag) + " fs " + proto + " " + kind;
-	long k = g_case++; if (!case_begin(k, desc)) return;
+	long k = g_case++; if (skip_by_match(desc) || !case_begin(k, desc)) return;
 	World &W = world(0); W.need_rabin(); Rng rg = case_rng(k, 4); tl_rng = &rg; QRO qro(W); Acc acc; size_t w_ = W.qr_w;
 	SchindelhauerTMCG tm(8, 2, w_);
 	uint64_t runidx = 0; auto nextsb = [&]() { return (uint64_t)k * 100003 + (++runidx); };
@@ -431,7 +438,7 @@ static void judge_guess(GuessAcc &ga, const std::string &proto, const std::strin
 // one (proto, statement kind, kappa): build the false statement once, then run the listed (guess, coins) pairs
 static void guess_case(const std::string &proto, const std::string &stmt, unsigned long kappa, size_t n, const std::vector<std::pair<unsigned long long, unsigned long long>> &pairs_small, const std::vector<std::pair<std::vector<int>, std::vector<int>>> &pairs_big, const std::string &label, bool exhaustive_coins) {
 	std::string desc = "guess " + proto + " " + stmt + " kappa=" + std::to_string(kappa) + " " + label;
-	long k = g_case++; if (!case_begin(k, desc)) return;
+	long k = g_case++; if (skip_by_match(desc) || !case_begin(k, desc)) return;
 	World &W = world(0); Rng rg = case_rng(k, 4); tl_rng = &rg; GuessAcc ga;
 	bool qr = proto.find("-qr") != std::string::npos; if (qr) W.need_rabin();
 	uint64_t runidx = 0; auto nextsb = [&]() { return (uint64_t)k * 100003 + (++runidx); };
@@ -550,6 +557,7 @@ int main(int argc, char **argv) {
 				if (groth_world && (is_cc(proto) || proto.find("hoogh") != std::string::npos)) continue;
 				std::vector<std::string> kinds = {"subst", "dup", "retype"};
 				if (is_tmcg_level(proto)) { kinds.push_back("drop"); kinds.push_back("nonmember"); }
+				else if (first && proto.find("noninteractive") != std::string::npos) kinds.push_back("nonmember");   // observation only (not judged)
 				if (is_rotation_proto(proto)) kinds.push_back("noncyclic");
 				for (auto &kind : kinds) fs_dstack(wi, proto, kind);
 			}
